@@ -551,7 +551,7 @@ def main():
         hit = caught.get(cn[0], False)
         run.canaries.append(dict(name=cn[0], detected=hit))
         if not hit:
-            run.inconc('canary not detected: %s' % cn[0])
+            run.canary_miss(cn[0], caught)
     for r in H.pmap(slot_fp_item, [(k, 150000) for k in ((3, 6, 7) if quick else range(1, 13))], run.args.jobs):
         run.merge(r)
     unit_field(run, m, norms, energy)
